@@ -497,7 +497,7 @@ impl Scenario for LinkSc {
 pub fn cfgs(tier: &str) -> Vec<(LinkCfg, Bounds)> {
     let q = tier == "quick";
     let mut v = vec![];
-    let wall = Duration::from_secs(if q { 15 } else { 200 });
+    let wall = Duration::from_secs(if q { 150 } else { 900 });
     let mut add = |name: &str, taps: Vec<Vec<usize>>, nets: usize, mtu: u16, lat: Lat, bps: u64, extra: Vec<usize>, d: usize| {
         v.push((
             LinkCfg {
